@@ -60,6 +60,11 @@ func NormalizeIOError(ioe error) error {
 	case io.ErrShortWrite:
 		return Recategorize(ErrShortWrite, ioe)
 	}
+	// An error that already carries one of our categories keeps it
+	//  (recursion, breakout... come from our own resolution code and pass through here on their way out).
+	if _, ok := Category(ioe).(ErrorCategory); ok {
+		return ioe
+	}
 	// Complicated things there are no stdlib predicates for.
 	switch e2 := ioe.(type) {
 	case *os.PathError:
